@@ -14,6 +14,10 @@ def run():
                   vlib.model_check("MpiWaitImpl", "MpiWaitImpl.cfg", timeout=600))
     rw = vlib.model_check("MpiWaitImpl", "MpiWaitImpl_dev.cfg", expect_ok=False, timeout=600)
     chk.add_model("MpiWaitImpl/variant dec_before_invoke (must violate)", rw, note="violated: %s" % rw["violated"])
+    chk.add_model("MpiModeImpl (lock-free single-threaded vs. locked bookkeeping for every mode bit / pool setting)",
+                  vlib.model_check("MpiModeImpl", "MpiModeImpl.cfg", timeout=600))
+    rm = vlib.model_check("MpiModeImpl", "MpiModeImpl_dev.cfg", expect_ok=False, timeout=600)
+    chk.add_model("MpiModeImpl/variant wrong_bit (must violate)", rm, note="violated: %s" % rm["violated"])
     (binary,) = vlib.build_harness(["mpi_harness"])
     nruns = 48 if chk.thorough() else 16
     nhist = 40 if chk.thorough() else 20
